@@ -471,4 +471,21 @@ theorem optimize_preserves_feasible [LawfulScore K] (ops : SpecOps σ K) (ev lz 
       | error e => exact key
       | ok u => exact ih s1 st1 key.2 key.1
 
+/-! ### non-vacuity: the hypotheses are satisfiable -/
+/-- a specification whose `localized` returns itself (EnforceChoice, non-windowed GC, budgets …) is
+    trivially sound: the local verdict *is* the global one -/
+example (ev : σ → Seq → Eval K) (c : σ) : LocalSound ev (fun c _ _ => some c) (fun c _ _ => c) c :=
+  fun _ _ _ _ _ _ h => h c rfl
+
+example : AgreeOut 1 3 "ATGCA".toList "ACCCA".toList := by
+  refine ⟨rfl, ?_⟩
+  intro i hi
+  match i, hi with
+  | 0, _ => rfl
+  | 1, h => omega
+  | 2, h => omega
+  | 3, _ => rfl
+  | 4, _ => rfl
+  | n + 5, _ => simp
+
 end Dna.C02
